@@ -1188,6 +1188,50 @@ def ifexp_to_if(fnode):
     return fn
 
 
+def enumerate_pad_loop_to_while(fnode, la, lb):
+    """`for i, a in enumerate(la): b = lb[i] if i < len(lb) else C; BODY` (i used nowhere else) is the position loop over la that
+    pads lb:   while la: a = la.pop(0); b = C; if lb: b = lb.pop(0); BODY.   What follows the loop sees the lists as they were;
+    `len(lb) > len(la)` there says that lb goes on after the end of la and `lb[len(la)]` is its element at that position.  Returns
+    the new function node or None."""
+    fn = clone(fnode)
+    for idx, st in enumerate(fn.body):
+        if not isinstance(st, ast.For):
+            continue
+        if not (isinstance(st.iter, ast.Call) and norm(st.iter.func) == 'enumerate' and [norm(a) for a in st.iter.args] == [la] and not st.iter.keywords
+                and isinstance(st.target, ast.Tuple) and len(st.target.elts) == 2 and all(isinstance(e, ast.Name) for e in st.target.elts)
+                and not st.orelse and st.body):
+            return None
+        i, a = st.target.elts[0].id, st.target.elts[1].id
+        first = st.body[0]
+        if not (isinstance(first, ast.Assign) and len(first.targets) == 1 and isinstance(first.targets[0], ast.Name) and isinstance(first.value, ast.IfExp)):
+            return None
+        b = first.targets[0].id
+        ie = first.value
+        if not (norm(ie.test) in ('%s < len(%s)' % (i, lb), 'len(%s) > %s' % (lb, i)) and norm(ie.body) == '%s[%s]' % (lb, i) and isinstance(ie.orelse, ast.Constant)):
+            return None
+        rest = st.body[1:]
+        if any(isinstance(n, ast.Name) and n.id == i for s_ in rest for n in ast.walk(s_)) or \
+                any(isinstance(n, ast.Name) and n.id in (la, lb) for s_ in rest for n in ast.walk(s_)) or \
+                any(isinstance(n, (ast.Break, ast.Continue)) for s_ in rest for n in ast.walk(s_)):
+            return None
+        src_ = ('while {la}:\n'
+                '    {a} = {la}.pop(0)\n'
+                '    {b} = {c}\n'
+                '    if {lb}:\n'
+                '        {b} = {lb}.pop(0)\n').format(la=la, lb=lb, a=a, b=b, c=norm(ie.orelse))
+        w = ast.parse(src_).body[0]
+        for n in ast.walk(w):
+            if hasattr(n, 'lineno'):
+                n.lineno = n.end_lineno = st.lineno
+        w.body = w.body + rest
+        fn.body[idx] = w
+        ast.fix_missing_locations(fn)
+        from .core import set_parents
+        set_parents(fn)
+        return fn
+    return None
+
+
 def padded_list_compare_to_loop(fnode, va, vb):
     """the idiom `la = f(va); lb = f(vb); w = max(len(la), len(lb)); la.extend([c] * (w - len(la))); lb.extend([c] * (w - len(lb)));
     <result from comparisons of la with lb>` rewritten as the position loop it abbreviates:
